@@ -224,7 +224,11 @@ func zzC13_DuringPlan()    { zzC13ReaderDuring(3) }
 // non-blocking flock section; a failed lock attempt is followed by no write. Together with the
 // kernel's mutual exclusion of LOCK_EX holders (assumption A1/A5) this serialises the sections.
 func zzC02Discipline(cmd int) {
-	root := zzFSInit("1;winv=1;clean=1;Results=0")
+	spec := "1;winv=1;clean=1;Results=0"
+	if cmd == 1 {
+		spec = "2;winv=1;clean=1;Results=0" // claim --epic needs an epic and a task in it
+	}
+	root := zzFSInit(spec)
 	opts, dir := zzFSOpts(root)
 	_, err0 := loadGraph(dir)
 	zzAssume(err0 == nil)
@@ -234,7 +238,7 @@ func zzC02Discipline(cmd int) {
 	case 0:
 		_, err = createTask(dir, opts, "", false, "title-a", "body-a")
 	case 1:
-		err = RunClaimOldestReady("", opts)
+		err = RunClaimOldestReady(zzString("epic"), opts) // with or without --epic (any id)
 	case 2:
 		err = RunCompact(opts)
 	case 3:
